@@ -265,5 +265,151 @@ theorem get_set_other (s : State) (name other : String) (t : Target) (h : other 
 theorem set_cfg (s : State) (name : String) (t : Target) : (s.set name t).cfg = s.cfg := by
   unfold State.set; split <;> rfl
 
+theorem get_filter_other (l : List (String × Target)) (name other : String) (h : other ≠ name) :
+    (l.filter (fun kv => kv.1 != name)).find? (fun kv => kv.1 == other) =
+      l.find? (fun kv => kv.1 == other) := by
+  induction l with
+  | nil => rfl
+  | cons x l ih =>
+    simp only [List.filter_cons]
+    by_cases hx : x.1 = name
+    · have h1 : (x.1 != name) = false := by simp [hx]
+      have h2 : (x.1 == other) = false := by rw [hx]; simpa using fun e => h e.symm
+      simp only [h1, Bool.false_eq_true, if_false, List.find?_cons, h2]
+      exact ih
+    · have h1 : (x.1 != name) = true := by simpa using hx
+      simp only [h1, if_true, List.find?_cons]
+      split
+      · rfl
+      · exact ih
+
+theorem get_filter_same (l : List (String × Target)) (name : String) :
+    (l.filter (fun kv => kv.1 != name)).find? (fun kv => kv.1 == name) = none := by
+  rw [List.find?_eq_none]
+  intro x hx
+  have := (List.mem_filter.1 hx).2
+  simpa using this
+
+/-- every registered target is well formed, carries its own name, and the name is not empty -/
+def SInv (s : State) : Prop :=
+  ∀ name t, s.get name = some t → TInv t ∧ t.name = name ∧ name ≠ ""
+
+theorem SInv.set {s : State} {name : String} {t : Target} (hs : SInv s)
+    (ht : TInv t ∧ t.name = name ∧ name ≠ "") : SInv (s.set name t) := by
+  intro nm t' hg
+  by_cases h : nm = name
+  · subst h
+    rw [get_set_same] at hg; cases hg; exact ht
+  · rw [get_set_other _ _ _ _ h] at hg
+    exact hs nm t' hg
+
+theorem SInv.onTarget {s : State} {name : String} {f : Target → Target × List Event} (hs : SInv s)
+    (hf : ∀ t, TInv t → t.name = name → name ≠ "" → TInv (f t).1 ∧ (f t).1.name = name) :
+    SInv (s.onTarget name f).1 := by
+  unfold State.onTarget
+  split
+  · exact hs
+  · rename_i t hg
+    obtain ⟨h1, h2, h3⟩ := hs name t hg
+    obtain ⟨a, b⟩ := hf t h1 h2 h3
+    exact hs.set ⟨a, b, h3⟩
+
+theorem metaNoti_target (enc : String → String) (t name : String) (v : Scalar) (now : Int) :
+    (metaNoti enc t name v now).target = t := rfl
+
+theorem SInv.empty (cfg : Cfg) : SInv { cfg := cfg } := by
+  intro name t h; simp [State.get] at h
+
+theorem fresh_target_inv (name : String) : TInv ({ name := name } : Target) :=
+  ⟨by simp [UniqueKeys], by simp, by simp, by simp [nm], by simp⟩
+
+/-- a valid API call: targets are registered under non-empty names -/
+def Op.valid : Op → Prop
+  | .add name => name ≠ ""
+  | _ => True
+
+theorem updateMetadata_sinv (enc : String → String) (now : Int) (s : State) (hs : SInv s) :
+    SInv (s.updateMetadata enc now).1 := by
+  unfold State.updateMetadata
+  suffices ∀ (l : List (String × Target)) (acc : State × List Event), SInv acc.1 →
+      SInv (l.foldl (fun acc kv =>
+        match acc.1.get kv.1 with
+        | none => acc
+        | some t =>
+          let r := t.updateMeta s.cfg enc now true
+          (acc.1.set kv.1 r.1, acc.2 ++ r.2)) acc).1 from this s.targets (s, []) hs
+  intro l
+  induction l with
+  | nil => intro acc h; exact h
+  | cons kv l ih =>
+    intro acc h
+    simp only [List.foldl_cons]
+    apply ih
+    split
+    · exact h
+    · rename_i t hg
+      obtain ⟨h1, h2, h3⟩ := h kv.1 t hg
+      have hm := updateMeta_ok s.cfg enc now true t h1 (by rw [h2]; exact h3)
+      exact h.set ⟨hm.inv, hm.name.trans h2, h3⟩
+
+/-- **Every API call keeps every target well formed, and `GnmiUpdate` never panics.** -/
+theorem step_sinv (enc : String → String) (s : State) (op : Op) (hs : SInv s) (hv : op.valid) :
+    SInv (s.step enc op).1 ∧ (s.step enc op).2.1 ≠ .panic := by
+  cases op with
+  | add name =>
+    refine ⟨?_, by simp [State.step]⟩
+    exact hs.set ⟨fresh_target_inv name, rfl, hv⟩
+  | remove name now =>
+    refine ⟨?_, by simp [State.step]⟩
+    intro nm t hg
+    simp only [State.step, State.remove, State.get] at hg
+    by_cases h : nm = name
+    · subst h; rw [get_filter_same] at hg; simp at hg
+    · rw [get_filter_other _ _ _ h] at hg; exact hs nm t hg
+  | reset name now =>
+    refine ⟨?_, by simp [State.step]⟩
+    apply hs.onTarget
+    intro t h1 h2 h3
+    obtain ⟨a, b, _⟩ := reset_ok s.cfg enc now t h1 (by rw [h2]; exact h3)
+    exact ⟨a, b.trans h2⟩
+  | sync name now =>
+    refine ⟨?_, by simp [State.step]⟩
+    apply hs.onTarget
+    intro t h1 h2 h3
+    obtain ⟨_, a, _, b⟩ := gnmiUpdate_ok s.cfg now t (metaNoti enc name "sync" (.bool true) now) h1 h3
+    exact ⟨a, b.trans h2⟩
+  | connect name now =>
+    refine ⟨?_, by simp [State.step]⟩
+    apply hs.onTarget
+    intro t h1 h2 h3
+    obtain ⟨_, a, _, b⟩ := gnmiUpdate_ok s.cfg now t (metaNoti enc name "connected" (.bool true) now) h1 h3
+    obtain ⟨_, c, _, d⟩ := gnmiUpdate_ok s.cfg now _ (deleteNotiOf enc name [metaRoot, "connectError"] now) a h3
+    exact ⟨c, (d.trans b).trans h2⟩
+  | connectError name msg now =>
+    refine ⟨?_, by simp [State.step]⟩
+    apply hs.onTarget
+    intro t h1 h2 h3
+    obtain ⟨_, a, _, b⟩ := gnmiUpdate_ok s.cfg now t (metaNoti enc name "connectError" (.str msg) now) h1 h3
+    exact ⟨a, b.trans h2⟩
+  | update now pn n =>
+    simp only [State.step, State.gnmiUpdate]
+    split
+    · exact ⟨hs, by simp⟩
+    · split
+      · exact ⟨hs, by simp⟩
+      · rename_i t hg
+        obtain ⟨h1, h2, h3⟩ := hs n.target t hg
+        obtain ⟨a, b, _, d⟩ := gnmiUpdate_ok s.cfg now t n h1 h3
+        exact ⟨hs.set ⟨b, d.trans h2, h3⟩, a⟩
+  | updateMetadata now =>
+    exact ⟨updateMetadata_sinv enc now s hs, by simp [State.step]⟩
+
+theorem run_sinv (enc : String → String) : ∀ (ops : List Op) (s : State), SInv s → (∀ op ∈ ops, op.valid) →
+    SInv (s.run enc ops)
+  | [], s, h, _ => h
+  | op :: ops, s, h, hv =>
+    run_sinv enc ops _ (step_sinv enc s op h (hv op (List.mem_cons_self ..))).1
+      (fun o ho => hv o (List.mem_cons_of_mem _ ho))
+
 end Cache
 end Gnmi
